@@ -777,7 +777,7 @@ def run_unit(ctx, proofs_ok):
     ctx.units["routing"] = {
         "checks": run.stats, "python_s": round(t1 - t0, 1), "coq_s": round(time.time() - t1, 1),
         "proved": "CVRP demands+capacity table (any num_loc), CVRPTW steps 1-8 per customer and per row, MTVRP time windows / demands / "
-                  "subsample / capacity, OP prize ranges + table, PDP pairing, SVRP sorted+dominating",
+                  "subsample / capacity, OP prize ranges for all three prize types + table, PDP pairing, SVRP sorted+dominating",
         "property_evaluated_only": "mTSP, PCTSP, MDCPDP capacity range, TSP (no post-processing beyond the sampler range); coordinates within bounds",
     }
     ctx.notes.append(
